@@ -79,6 +79,14 @@ func ruleC13(c *Check) {
 	c.assume("A-SDK: sdk.Coins arithmetic is correct")
 	c.earnRules("C13")
 	c.withdrawRules("C13")
+	// withdrawing for one provider touches exactly that provider's records only if the signer owns it
+	if gOwner := c.getterByFamily("0x04"); gOwner != nil {
+		for _, en := range c.entries("C13.3") {
+			if en.Msg == "MsgWithdrawEarnedFees" {
+				c.withdrawAuthority("C13.3", en, gOwner)
+			}
+		}
+	}
 	c.withdrawAddressWriters("C13.4")
 	c.earningsDeleters("C13.6")
 	c.handlerAddressArgs("C13.7")
@@ -460,6 +468,15 @@ func (c *Check) scanOrder(rule string) {
 			if u.NB.Caller == f && ev.Node == u.NB.Call.Node && i10 < 0 {
 				i10 = i
 			}
+			// the scans may sit in functions the end-blocker calls: the call whose effects include the queue scan
+			for _, e := range c.P.effectsOfEvent(f, ev) {
+				if e.Kind == "store" && e.Op == "Iter" && e.Family == "0x09" && i9 < 0 {
+					i9 = i
+				}
+				if e.Kind == "store" && e.Op == "Iter" && e.Family == "0x10" && i10 < 0 {
+					i10 = i
+				}
+			}
 		}
 		c.req(i9 >= 0 && i10 >= 0 && i9 < i10, rule, unitConstruct(f, "expired-before-new"), f.Body.Pos(),
 			"the expired-batch queue is scanned before the new-batch queue (bindings disabled by a slash in this block are seen by the filter)")
@@ -555,7 +572,10 @@ func (c *Check) priceSkeleton(rule string) {
 			}
 			rest = append(rest, l)
 		}
-		sameDenom := af.Has(Fact{T: mk("==", parseTerm(bd), parseTerm(denom))}) || af.Has(normFact(Fact{T: mk("==", parseTerm(bd), parseTerm(denom))})) || denom == bd
+		sameDenom := denom == bd
+		if denom != "" && bd != "" && !sameDenom {
+			sameDenom = af.Has(Fact{T: mk("==", parseTerm(bd), parseTerm(denom))}) || af.Has(normFact(Fact{T: mk("==", parseTerm(bd), parseTerm(denom))}))
+		}
 		want := []string{dt, dv}
 		if !sameDenom {
 			// exchanged branch: one more factor (the rate) is allowed
